@@ -293,13 +293,17 @@ def streams(tier, rng):
             for flag in ("-", "decimal", "binary"):
                 for envv in ("-", "decimal", "binary"):
                     e2e.append(f"{api} {flag} {envv}")
+        # several runners with different formats in ONE process: each table in its own runner's format
+        for seq in ("bd", "db", "bb", "dd", "bdb", "dbd", "ddb", "bbd"):
+            e2e.append(f"seq-{seq} - -")
     sts.append(Stream("table-end-to-end", "e2e", e2e, model_input=with_impl,
                       nontrivial=lambda c, m: m.startswith("ok ") and "0 item/s" in m and ("iB" in m or "KB" in m),
-                      hist=dict(Counter("api=" + c.split()[0] for c in e2e)),
+                      hist=dict(Counter("api=" + c.split()[0].split("-")[0] for c in e2e)),
                       describe="real child process of hx-fmt with 7 #[divan::bench] functions (1 MiB copy with BytesCount, zero "
                                "Items/Bytes/Chars/Cycles counters alone and beside a non-zero one, empty inputs with input_counter, "
                                "one 2048-byte allocation under AllocProfiler, 1500 items); the byte format is given by --bytes-format, "
-                               "DIVAN_BYTES_FORMAT, Divan::bytes_format before or after config_with_args; every throughput cell must be "
+                               "DIVAN_BYTES_FORMAT, Divan::bytes_format before or after config_with_args, or by two/three runners with different "
+                               "formats run one after the other in one process (each table judged with its own runner's format); every throughput cell must be "
                                "the model's display_throughput(kind, count, p, configured format) for a p in the interval of picosecond "
                                "values that print as the time cell of the same column, zero counts must print their `0 <unit>` row, "
                                "alloc sizes must be format_bytes(2048, 4, configured format)"))
